@@ -45,7 +45,7 @@ func fromReader(r io.Reader) (*Block, error) {
 	nTx, err := varint.FromReader(r)
 	if err != nil {
 		return nil, err
-	} else if int(nTx) > constants.BlockMaxSize/tx.MinimumSizeNoWitness {
+	} else if nTx > constants.BlockMaxSize/tx.MinimumSizeNoWitness {
 		return nil, ErrInvalidFormat
 	}
 
